@@ -1,10 +1,12 @@
 /-
   C16 — modified UTF-7 is lossless and safe.  Property theorems only.
 
-  not yet proved: decode_scalar, rejects_*, decode_eq_spec, decTransform_oneshot, transform_chunking
+  not yet proved: decode_eq_spec, decTransform_oneshot, transform_chunking
 -/
 import GoImap.Lemmas.Utf7
 import GoImap.Lemmas.Utf7Round
+import GoImap.Lemmas.Utf7Safe
+import GoImap.Lemmas.Utf7Reject
 import GoImap.Spec.Utf7
 namespace GoImap.C16
 open GoImap.Utf7 GoImap.Utf7Spec GoImap.Utf7Lemmas
@@ -34,5 +36,153 @@ theorem encode_printable (s : List Nat) (h : ∀ c ∈ s, Scalar c) : ∀ b ∈ 
 
 example : ∀ b ∈ encode [97, 233, 128512, 10], printable b = true :=
   encode_printable _ (by decide)
+
+/-! ### decoder safety -/
+
+/-- the decoder only ever outputs Unicode scalar values (so the UTF-8 it writes is valid) -/
+theorem decode_scalar (b : BytesN) (cs : List Nat) (h : decode b = some cs) : ∀ c ∈ cs, Scalar c :=
+  dec_scalar b true none cs h
+
+-- "a&AOk-" decodes to [97, 233]
+example : decode [97, 38, 65, 79, 107, 45] = some [97, 233] := by decide
+example : ∀ c ∈ [97, 233], Scalar c := decode_scalar [97, 38, 65, 79, 107, 45] _ (by decide)
+
+/-! ### the must-reject list -/
+
+/-- lifting: a terminated shift whose segment `decodeSeg` rejects makes the whole input fail,
+    whatever precedes and follows it -/
+theorem rejects_bad_segment (pre seg post : BytesN) (hne : seg ≠ []) (h45 : ∀ c ∈ seg, c ≠ 45)
+    (hbad : decodeSeg seg = none) : decode (pre ++ (38 :: seg ++ 45 :: post)) = none :=
+  dec_prefix_none (dec_bad_segment seg post hne h45 hbad) pre true none
+
+-- "x&AGE-y": the segment encodes 'a'
+example : decode ([120] ++ (38 :: [65, 71, 69] ++ 45 :: [121])) = none :=
+  rejects_bad_segment _ _ _ (by decide) (by decide) (by decide)
+
+/-- the input ends inside a shift -/
+theorem rejects_unterminated (pre seg : BytesN) (h : ∀ c ∈ seg, c ≠ 45) :
+    decode (pre ++ 38 :: seg) = none :=
+  dec_prefix_none (dec_unterminated_any seg h) pre true none
+
+example : decode ([97, 98] ++ 38 :: [65, 79, 107]) = none := rejects_unterminated _ _ (by decide)
+
+/-- any byte outside 32..126, anywhere -/
+theorem rejects_nonprintable (b : BytesN) (c : Nat) (hc : c ∈ b) (hp : printable c = false) :
+    decode b = none :=
+  dec_nonprintable b true none (Or.inl ⟨c, hc, hp⟩)
+
+example : decode [97, 38, 65, 233, 107, 45] = none := rejects_nonprintable _ 233 (by decide) (by decide)
+example : decode [97, 127] = none := rejects_nonprintable _ 127 (by decide) (by decide)
+
+/-- two base64 shifts back to back: "…&seg1-&seg2-…" -/
+theorem rejects_adjacent_shifts (pre seg1 seg2 post : BytesN) (hne1 : seg1 ≠ []) (hne2 : seg2 ≠ [])
+    (h1 : ∀ c ∈ seg1, c ≠ 45) (h2 : ∀ c ∈ seg2, c ≠ 45) :
+    decode (pre ++ (38 :: seg1 ++ 45 :: (38 :: seg2 ++ 45 :: post))) = none :=
+  dec_prefix_none (dec_adjacent seg1 seg2 post hne2 h1 h2 hne1) pre true none
+
+-- "&AOk-&AOk-": each segment alone is fine
+example : decode ([] ++ (38 :: [65, 79, 107] ++ 45 :: (38 :: [65, 79, 107] ++ 45 :: []))) = none :=
+  rejects_adjacent_shifts _ _ _ _ (by decide) (by decide) (by decide) (by decide)
+example : decode (38 :: [65, 79, 107] ++ [45]) = some [233] := by decide
+
+/-- UTF-16 layer: a unit that is a printable US-ASCII value -/
+theorem rejects_ascii_in_b64 (p : BytesN) (h l : Nat) (q : BytesN) (hp : p.length % 2 = 0)
+    (hu : printable (h * 256 + l) = true) : utf16dec (p ++ h :: l :: q) = none :=
+  utf16dec_ascii p h l q hp hu
+
+theorem rejects_ascii_in_b64_decode (pre seg post p : BytesN) (h l : Nat) (q : BytesN)
+    (hb : b64dec seg = some (p ++ h :: l :: q)) (hp : p.length % 2 = 0)
+    (hu : printable (h * 256 + l) = true) : decode (pre ++ (38 :: seg ++ 45 :: post)) = none :=
+  dec_bad_utf16 pre seg post _ (by intro h0; subst h0; cases p <;> simp [b64dec] at hb) hb
+    (utf16dec_ascii p h l q hp hu)
+
+-- "&AOkAYQ-" = U+00E9 then 'a' inside the shift
+example : decode ([] ++ (38 :: [65, 79, 107, 65, 89, 81] ++ 45 :: [])) = none :=
+  rejects_ascii_in_b64_decode [] _ [] [0, 233] 0 97 [] (by decide) (by decide) (by decide)
+
+/-- UTF-16 layer: an odd number of bytes -/
+theorem rejects_odd_utf16 (bs : BytesN) (h : bs.length % 2 = 1) : utf16dec bs = none :=
+  utf16dec_odd bs h
+
+theorem rejects_odd_utf16_decode (pre seg post bs : BytesN) (hb : b64dec seg = some bs)
+    (h : bs.length % 2 = 1) : decode (pre ++ (38 :: seg ++ 45 :: post)) = none :=
+  dec_bad_utf16 pre seg post bs (by intro h0; subst h0; simp [b64dec] at hb; subst hb; simp at h) hb
+    (utf16dec_odd bs h)
+
+-- "&AOkA-": three bytes 00 E9 00
+example : decode ([] ++ (38 :: [65, 79, 107, 65] ++ 45 :: [])) = none :=
+  rejects_odd_utf16_decode [] _ [] [0, 233, 0] (by decide) (by decide)
+
+/-- UTF-16 layer: a high surrogate that is not followed by a low surrogate (end of data, a single
+    trailing byte, or any other unit) -/
+theorem rejects_lone_surrogate (p : BytesN) (h l : Nat) (q : BytesN) (hp : p.length % 2 = 0)
+    (hlo : 55296 ≤ h * 256 + l) (hhi : h * 256 + l < 56320)
+    (hnext : ∀ h2 l2 r, q = h2 :: l2 :: r → ¬ (56320 ≤ h2 * 256 + l2 ∧ h2 * 256 + l2 < 57344)) :
+    utf16dec (p ++ h :: l :: q) = none :=
+  utf16dec_high p h l q hp hlo hhi hnext
+
+/-- UTF-16 layer: a low surrogate whose preceding unit is not a high surrogate -/
+theorem rejects_lone_low_surrogate (p : BytesN) (h l : Nat) (q : BytesN) (hp : p.length % 2 = 0)
+    (hlo : 56320 ≤ h * 256 + l) (hhi : h * 256 + l < 57344)
+    (hprev : ∀ p' h0 l0, p = p' ++ [h0, l0] → ¬ (55296 ≤ h0 * 256 + l0 ∧ h0 * 256 + l0 < 56320)) :
+    utf16dec (p ++ h :: l :: q) = none :=
+  utf16dec_low p h l q hp hlo hhi hprev
+
+theorem rejects_lone_surrogate_decode (pre seg post p : BytesN) (h l : Nat) (q : BytesN)
+    (hb : b64dec seg = some (p ++ h :: l :: q)) (hp : p.length % 2 = 0)
+    (hlo : 55296 ≤ h * 256 + l) (hhi : h * 256 + l < 56320)
+    (hnext : ∀ h2 l2 r, q = h2 :: l2 :: r → ¬ (56320 ≤ h2 * 256 + l2 ∧ h2 * 256 + l2 < 57344)) :
+    decode (pre ++ (38 :: seg ++ 45 :: post)) = none :=
+  dec_bad_utf16 pre seg post _ (by intro h0; subst h0; cases p <;> simp [b64dec] at hb) hb
+    (utf16dec_high p h l q hp hlo hhi hnext)
+
+theorem rejects_lone_low_surrogate_decode (pre seg post p : BytesN) (h l : Nat) (q : BytesN)
+    (hb : b64dec seg = some (p ++ h :: l :: q)) (hp : p.length % 2 = 0)
+    (hlo : 56320 ≤ h * 256 + l) (hhi : h * 256 + l < 57344)
+    (hprev : ∀ p' h0 l0, p = p' ++ [h0, l0] → ¬ (55296 ≤ h0 * 256 + l0 ∧ h0 * 256 + l0 < 56320)) :
+    decode (pre ++ (38 :: seg ++ 45 :: post)) = none :=
+  dec_bad_utf16 pre seg post _ (by intro h0; subst h0; cases p <;> simp [b64dec] at hb) hb
+    (utf16dec_low p h l q hp hlo hhi hprev)
+
+-- "&2D0-": U+D83D alone;  "&2D0A6Q-": U+D83D then U+00E9;  "&3gA-": U+DE00 alone
+example : decode ([] ++ (38 :: [50, 68, 48] ++ 45 :: [])) = none :=
+  rejects_lone_surrogate_decode [] _ [] [] 216 61 [] (by decide) (by decide) (by decide) (by decide)
+    (by intro _ _ _ h; cases h)
+example : decode ([] ++ (38 :: [50, 68, 48, 65, 54, 81] ++ 45 :: [])) = none :=
+  rejects_lone_surrogate_decode [] _ [] [] 216 61 [0, 233] (by decide) (by decide) (by decide) (by decide)
+    (by intro _ _ _ h; cases h; decide)
+example : decode ([] ++ (38 :: [51, 103, 65] ++ 45 :: [])) = none :=
+  rejects_lone_low_surrogate_decode [] _ [] [] 222 0 [] (by decide) (by decide) (by decide) (by decide)
+    (by intro p' _ _ h; cases p' <;> simp at h)
+-- and the pair U+D83D U+DE00 is accepted: "&2D3eAA-"
+example : decode (38 :: [50, 68, 51, 101, 65, 65] ++ [45]) = some [128512] := by decide
+
+/-- CR or LF inside a base64 segment (Go's base64 package would silently skip them) -/
+theorem rejects_crlf_in_b64 (seg : BytesN) (c : Nat) (hc : c = 13 ∨ c = 10) (hm : c ∈ seg) :
+    decodeSeg seg = none :=
+  decodeSeg_bad hm (b64val_nonprintable (by rcases hc with rfl | rfl <;> decide))
+
+theorem rejects_crlf_in_b64_decode (pre seg post : BytesN) (c : Nat) (hc : c = 13 ∨ c = 10)
+    (hm : c ∈ seg) : decode (pre ++ (38 :: seg ++ 45 :: post)) = none :=
+  rejects_nonprintable _ c (by simp [hm]) (by rcases hc with rfl | rfl <;> decide)
+
+example : decode ([] ++ (38 :: [65, 79, 13, 10, 107] ++ 45 :: [])) = none :=
+  rejects_crlf_in_b64_decode _ _ _ 13 (by decide) (by decide)
+
+/-- '=' padding at the end of a segment -/
+theorem rejects_pad (seg : BytesN) : decodeSeg (seg ++ [61]) = none :=
+  decodeSeg_bad (c := 61) (by simp) (by decide)
+
+theorem rejects_pad_decode (pre seg post : BytesN) (h45 : ∀ c ∈ seg, c ≠ 45) :
+    decode (pre ++ (38 :: (seg ++ [61]) ++ 45 :: post)) = none :=
+  rejects_bad_segment pre (seg ++ [61]) post (by simp)
+    (by intro c hc; rcases List.mem_append.mp hc with hc | hc
+        · exact h45 c hc
+        · simp only [List.mem_singleton] at hc; subst hc; decide)
+    (rejects_pad seg)
+
+-- "&AOk=-"
+example : decode ([] ++ (38 :: ([65, 79, 107] ++ [61]) ++ 45 :: [])) = none :=
+  rejects_pad_decode _ _ _ (by decide)
 
 end GoImap.C16
